@@ -906,12 +906,20 @@ func (g *GoFakeS3) deleteMulti(bucket string, w http.ResponseWriter, r *http.Req
 	var err error
 	var out MultiDeleteResult
 	if g.versioned == nil {
-		keys := make([]string, len(in.Objects))
-		for i, o := range in.Objects {
-			keys[i] = o.Key
+		// Without versioning no object has a version of its own: naming one
+		// must not delete the object that is there.
+		var noSuchVersion []ErrorResult
+		keys := make([]string, 0, len(in.Objects))
+		for _, o := range in.Objects {
+			if o.VersionID != "" {
+				noSuchVersion = append(noSuchVersion, ErrorResult{Key: o.Key, Code: ErrNoSuchVersion})
+				continue
+			}
+			keys = append(keys, o.Key)
 		}
 
 		out, err = g.storage.DeleteMulti(bucket, keys...)
+		out.Error = append(out.Error, noSuchVersion...)
 	} else {
 		out, err = g.versioned.DeleteMultiVersions(bucket, in.Objects...)
 	}
